@@ -6,6 +6,7 @@ CONSTANTS MaxConn = 3
           HdrWords = {0, 1, 2}
           WithReject = FALSE
           MinOps = 5
+          Tmos = {0}
           Fails = {0, 1, 2}
 INVARIANTS Integrity ParkedAreQueued NoMissedMatch NoOrphan OnePipe DialerState RemAfterPost OnlyNamedLoss
 ACTION_CONSTRAINT ExportEdge
